@@ -783,7 +783,14 @@ fn chunk_construct(reference: &[Obs], other: &[Obs], input: &[u8]) -> String {
     if (ping_frame(reference.get(k)) && ping_err(other.get(k))) || (ping_err(reference.get(k)) && ping_frame(other.get(k))) {
         return "raw-ping-split".to_string();
     }
-    format!("other-{}", construct_of(input))
+    // otherwise: name the kind of divergence (bounded set of signatures)
+    let _ = input;
+    let kind = |o: Option<&Obs>| match o {
+        Some(Obs::Frame(_)) => "frame",
+        Some(Obs::Err(_)) => "error",
+        None => "nothing",
+    };
+    format!("whole-{}-vs-split-{}", kind(reference.get(k)), kind(other.get(k)))
 }
 
 fn report_tot(rep: &mut Report, out: &TotOutcome, replay: &str) {
@@ -1061,10 +1068,8 @@ fn chunk_compare(rep: &mut Report, stream: &[u8], reference: &ParseRun, splits_d
         ok = false;
     }
     if !obs_eq(&reference.obs, &run.obs) {
-        let mut c = chunk_construct(&reference.obs, &run.obs, stream);
-        if c.starts_with("other-") && cons_hint != "none" {
-            c = format!("{}-tail-{}", c, cons_hint);
-        }
+        let c = chunk_construct(&reference.obs, &run.obs, stream);
+        let _ = cons_hint;
         rep.violation(
             format!("chunking/{}", c),
             format!(
